@@ -2,10 +2,16 @@
 SPECIFICATION FairSpec
 CONSTANTS
   Guard = "AsRequired"
-  Classes <- UpTo2
+  Cmp = "id"
+  Setups <- SetsQuick
+  Blocks <- BlocksUpTo2
+  Seconds <- NoSeconds
   MaxRound = 1
   MaxRestarts = 2
   Sched = "fixed"
+  ByzVotes = "support"
+  Loss = "none"
+  Serve = "prefix"
 INVARIANTS TypeOK
 PROPERTIES ChainContinues
 VIEW View
